@@ -568,13 +568,14 @@ func c10CheckBuffer(c *core.Ctx, cs *c10Case) (obs []c10Obs, ok bool) {
 	head := c10ModelHead(cs)
 	// the model: the multi-column buffer of required and optional columns, or
 	// (sorting by one repeated column) the repeated column buffer alone
-	useModel, nparts, repCol := true, 4, -1
+	useModel, repCol := true, -1
+	const nparts = 4
 	rowsW := func(rows [][]c10Cell) string { return c10ModelRowsW(cols, rows) }
 	rowsR := func(rows [][]c10Cell) string { return c10ModelRowsR(cols, rows) }
 	if cs.Kind == "repeated" {
 		useModel = false
 		if len(cs.Sorting) == 1 && cols[cs.Sorting[0].Col].Rep {
-			useModel, nparts, repCol = true, 3, cs.Sorting[0].Col
+			useModel, repCol = true, cs.Sorting[0].Col
 			head = fmt.Sprintf("c10.rep %x %s %s ", cols[repCol].MaxDef, b01(cs.Sorting[0].NullsFirst), b01(cs.Sorting[0].Desc))
 			rowsW = func(rows [][]c10Cell) string { return c10RepRows(cols[repCol], repCol, rows, ";") }
 			rowsR = func(rows [][]c10Cell) string {
@@ -707,11 +708,9 @@ func c10CheckBuffer(c *core.Ctx, cs *c10Case) (obs []c10Obs, ok bool) {
 						c.Mismatch("corr:C10.less", head+strings.Join(ops, "/"), lm, ans[2], cs)
 						ok = false
 					}
-					if nparts == 4 {
-						if cm := cmpMatrix(); ans[3] != cm && good {
-							c.Mismatch("corr:C10.comparator", head+strings.Join(ops, "/"), cm, ans[3], cs)
-							ok = false
-						}
+					if cm := cmpMatrix(); ans[3] != cm && good {
+						c.Mismatch("corr:C10.comparator", head+strings.Join(ops, "/"), cm, ans[3], cs)
+						ok = false
 					}
 					if mr := rowsR(cur); ans[0] != mr {
 						c.Mismatch("corr:C10.logical-rows", head+strings.Join(ops, "/"), mr, ans[0], cs)
@@ -816,7 +815,7 @@ func c10CheckBuffer(c *core.Ctx, cs *c10Case) (obs []c10Obs, ok bool) {
 						c.Mismatch("corr:C10.less-after-page", head+strings.Join(ops, "/"), lm, ans[2], cs)
 						ok = false
 					}
-					if nparts == 4 {
+					if repCol < 0 {
 						obs = append(obs, c10Obs{ops: strings.Join(ops, "/"), rows: mr, less: lm, nrows: len(cur)})
 					}
 				} else if c.HasOracle() {
